@@ -66,6 +66,20 @@ template <class S> static void warm_up(S &s, Rng &r, const Eigen::VectorXd &x) {
   (void)sink;
 }
 
+// one case in three: the object has interpolated THIS grid before, under the OTHER boundary type (natural <-> periodic); the boundary rows of
+// the spline system belong to the boundary type, so nothing computed for the first call may survive into the second
+template <class S> static void warm_up_bc(S &s, Rng &r, const Eigen::VectorXd &x, int per) {
+  if (!r.coin(1, 3)) return;
+  Eigen::VectorXd wy(x.size());
+  for (long i = 0; i < x.size(); i++) wy(i) = std::cos(3.0 * (double)i) + 0.25 * (double)i;
+  wy(x.size() - 1) = wy(0);
+  s.setBC(per ? Spline::splineNormal : Spline::splinePeriodic);
+  s.Interpolate(x, wy);
+  volatile double sink = s.Calculate(0.5 * (x(0) + x(1)));
+  (void)sink;
+  s.setBC(per ? Spline::splinePeriodic : Spline::splineNormal);
+}
+
 int main(int argc, char **argv) {
   std::string mode = argc > 1 ? argv[1] : "rand";
   long NC = argc > 2 ? atol(argv[2]) : 300;
@@ -84,6 +98,7 @@ int main(int argc, char **argv) {
       CubicSpline s;
       s.setBC(per ? Spline::splinePeriodic : Spline::splineNormal);
       warm_up(s, r, x);
+      warm_up_bc(s, r, x, per);
       s.Interpolate(x, y);
       printf("C12 cubic %d %d%s%s%s%s\n", per, N, vec(x).c_str(), vec(y).c_str(), vec(s.f2_).c_str(), evals(s, eval_points(r, x)).c_str());
       // linear in the ordinates
@@ -110,6 +125,7 @@ int main(int argc, char **argv) {
       AkimaSpline s;
       s.setBC(per ? Spline::splinePeriodic : Spline::splineNormal);
       warm_up(s, r, x);
+      warm_up_bc(s, r, x, per);
       s.Interpolate(x, y);
       printf("C12 akima %d %d%s%s%s%s\n", per, N, vec(x).c_str(), vec(y).c_str(), vec(s.t).c_str(), evals(s, eval_points(r, x)).c_str());
     } else if (k < 9) {
